@@ -74,7 +74,7 @@ func (ds *defaultSpreaderPipeline) worker(ctx context.Context, wg *sync.WaitGrou
 			ds.Unlock()
 			if err != nil {
 				verifPoint("spread.err")
-				errc <- err
+				sendErr(ctx, errc, err)
 				return
 			}
 		}
@@ -138,7 +138,7 @@ func (f *formattedSpreaderPipeline[T]) spread(ctx context.Context, w io.Writer, 
 				}
 				if err := encode(toFormattedNode(root, f.formattedRoot(root.name))); err != nil {
 					verifPoint("spread.err")
-					errc <- err
+					sendErr(ctx, errc, err)
 				}
 			}
 		}
@@ -184,13 +184,13 @@ func (cs *colorizeSpreaderPipeline) spread(ctx context.Context, w io.Writer, roo
 						cs.summary()),
 				); err != nil {
 					verifPoint("spread.err")
-					errc <- err
+					sendErr(ctx, errc, err)
 					return
 				}
 			}
 			if err := bw.Flush(); err != nil {
 				verifPoint("spread.err")
-				errc <- err
+				sendErr(ctx, errc, err)
 				return
 			}
 		}
